@@ -11,7 +11,14 @@ for pid in ENABLED:
     mod = importlib.import_module("props." + pid.lower())
     g = getattr(mod, "generate", None)
     if g:
-        print("generate:", mod.__name__); g()
+        print("generate:", mod.__name__)
+        r = g()
+        # some modules return the text instead of writing it (their run() writes it)
+        rel = getattr(mod, "GEN_REL", None)
+        if rel:
+            txt = r if isinstance(r, str) else (r[0] if isinstance(r, tuple) and r and isinstance(r[0], str) else None)
+            if txt:
+                C.write_if_changed(C.COQ + "/" + rel, txt)
     targets += list(getattr(mod, "TARGETS", []))
     targets += [os.path.relpath(f, C.COQ) + "o" for f in glob.glob(C.COQ + "/Props/Properties_%s*.v" % pid)]
     # extraction files of the directories the property file depends on
